@@ -18,7 +18,16 @@ func (e Engine) CoqHeader() string {
 
 func (e Engine) CoqCaseType() string { return "ccase" }
 
-func (e Engine) Generate(r *lib.Rng, tier string, i int) any { return Generate(r, tier) }
+func (e Engine) Generate(r *lib.Rng, tier string, i int) any {
+	c := Generate(r, tier)
+	// C06 only (a failing store has nothing to say about C05's equivalence): 2.5% of the cases with an id
+	// run against a store whose k-th write fails; judged by the direct oracle alone
+	if e.Prop == "C06" && !c.NoID && r.Chance(1, 40) {
+		c.SetFailAt = r.Range(1, 3)
+		c.Twice = false
+	}
+	return c
+}
 
 func (e Engine) Decode(raw json.RawMessage) (any, error) {
 	c := &Case{}
@@ -41,6 +50,11 @@ func (e Engine) Decode(raw json.RawMessage) (any, error) {
 
 func (e Engine) Run(x any) lib.Result {
 	c := x.(*Case)
+	if e.Prop != "C06" && c.SetFailAt > 0 {
+		cc := *c
+		cc.SetFailAt = 0
+		c = &cc
+	}
 	obs := Execute(c)
 	res := lib.Result{Obs: obs}
 	var f *Failure
@@ -138,6 +152,9 @@ func tags(c *Case, obs *RunObs) ([]string, bool) {
 	}
 	if c.NoID {
 		t = append(t, "no-id")
+	}
+	if obs.Repeat != nil {
+		t = append(t, "repeat:"+obs.Repeat.Class)
 	}
 	if c.Twice {
 		t = append(t, "second-run")
